@@ -11,6 +11,7 @@ import json, os, random, re, struct, subprocess, zlib
 from vlib import *  # noqa
 import docs, project
 
+PICS = ("small.png", "big.png", "huge.png", "Shot.PNG", "Photo.JPeG", "a.b.c.gif", "noext", "sub/deep.png")
 LEVEL = "exploration"
 E = docs.EXT
 UU = r"[0-9a-fA-F]{8}-[0-9a-fA-F-]{27}"
@@ -66,7 +67,7 @@ def project_pkg(kind, data, plain, null):
     # asset files of the sources that are still referred to by their original name in the document the package carries
     doc = main if kind in ("epub", "odt") else byname.get("text.markdown")
     if doc is not None:
-        r["rawrefs"] = sorted({n for n in ("small.png", "big.png", "huge.png", "style.css") if re.search(rb'(?<![\w/])' + re.escape(n.encode()), doc)})
+        r["rawrefs"] = sorted({n for n in PICS + ("style.css",) if re.search(rb'(?<![\w/])' + re.escape(n.encode()), doc)})
     adir = {"epub": "OEBPS/assets/", "odt": "Pictures/", "bundlezip": "assets/"}.get(kind)
     r["nassets"] = len([m for m in mem if adir and m["name"].startswith(adir) and len(m["name"]) > len(adir)]); r["nreadable"] = 0
     if main is not None and plain is not None and kind in ("epub", "odt"):
@@ -88,12 +89,16 @@ def run(tier, seed):
     srcs += ["![m](nofile.png) then ![a](small.png) and ![b](big.png)\n\nend\n", "![a](small.png) ![m](nofile.png) ![m2](nofile2.png) ![b](huge.png)\n\nend\n"]
     # an asset's address as the very last bytes of the source (no final newline): the text the bundle carries must be rewritten there too
     srcs += ["# One\n\n![alt][pic]\n\n[pic]: small.png", "text\n\n![alt](small.png)", "Title: T\ncss: style.css\n\ntext ![a](big.png) and ![b][r]\n\n[r]: small.png"]
+    # picture files whose names are not all lower case, have several dots, no extension, or live in a sub-folder (the address is the key of the asset table AND the file to open)
+    srcs += ["![shot](Shot.PNG) and ![p](Photo.JPeG)\n\nend\n", "![a](a.b.c.gif) ![n](noext) ![s](sub/deep.png)\n\n![r][r]\n\n[r]: Shot.PNG \"T\"\n", "Title: U\n\n# H\n\n![x](sub/deep.png)\n\n![y](Shot.PNG)"]
     exe = build.build_harness("asan"); cli = build.build_cli()
     wd = scratch("c09")
     trace = []; problems = []
     try:
         open(os.path.join(wd, "small.png"), "wb").write(png(4, 4, rnd)); open(os.path.join(wd, "big.png"), "wb").write(png(64, 64, rnd))
         open(os.path.join(wd, "huge.png"), "wb").write(png(128, 128, rnd)); open(os.path.join(wd, "style.css"), "w").write("body { color: black }\n")
+        os.makedirs(os.path.join(wd, "sub"), exist_ok=True)
+        for k_, nm_ in enumerate(("Shot.PNG", "Photo.JPeG", "a.b.c.gif", "noext", "sub/deep.png")): open(os.path.join(wd, nm_), "wb").write(png(5 + k_, 5 + k_, rnd))
         kinds = [("epub", "epub", "html"), ("odt", "odt", "fodt"), ("bundlezip", "bundlezip", None), ("itmz", "itmz", None)]
         segs = []; per = 8
         for i in range(0, len(srcs), per):
@@ -124,7 +129,7 @@ def run(tier, seed):
                     ev2 = project_pkg(f, data, plain.get("html" if f == "epub" else "fodt") if n[f] == 1 else None, e["null"])
                     ev2["src"] = srcs[si * per + int(sid[1:])]; ev2["dir"] = n[f] == 1; ev2["via"] = "api"
                     ev2["readable"] = ev2["dir"] and "nofile" not in ev2["src"]
-                    ev2["nreadable"] = len({n_ for n_ in ("small.png", "big.png", "huge.png") if n_ in ev2["src"]}) if ev2["dir"] else 0
+                    ev2["nreadable"] = len({n_ for n_ in PICS if n_ in ev2["src"]}) if ev2["dir"] else 0
                     trace.append(ev2)
         # the command line, -o
         csel = srcs[:: (4 if tier == "quick" else 1)]
